@@ -71,6 +71,31 @@ CLAIMED["C09"] = dict(
     technique="Lean 4 refinement proof to a path-wise union spec + differential correspondence over (file tree, runtime tree) pairs",
     design="7 C09")
 
+CLAIMED["C10"] = dict(
+    text="Kernel-checked: C10_frame/C10_frame_save — EVERY save into an existing file (the whole dispatch of write.py: whole-root "
+         "append, append-over, every targeted append with every tree option and emdpath) adds or rewrites exactly one top-level "
+         "group; every other tree and the header (incl. UUID) are literally unchanged; C10_new_tree/C10_append_all/C10_roots_* — "
+         "trees with distinct root names saved one after the other give exactly one top-level tree per root, each the encoding of its "
+         "source; C10_each_readable — each is readable by its root name and equals its source; C10_read_list — a read without a path "
+         "on a file with >= 2 roots reports exactly the root names.",
+    note="The mixed-list layout (root_savedlist, array_i / dictionary_i naming, rooted items alone under a copy of their root) is "
+         "modelled (EmdModel.SaveList, a transcription of the list branch of write()) and checked by the correspondence and by a "
+         "direct layout oracle on every generated list; no separate theorem is stated for the list layout beyond the per-save theorems "
+         "it is composed of.",
+    technique="Lean 4 frame/invariant proofs over the save dispatch + differential correspondence on interleaved list saves and appends",
+    design="7 C10")
+CLAIMED["C11"] = dict(
+    text="Kernel-checked for EVERY file-system state, source and tree option: C11_write_refuses (write mode on an existing path is "
+         "refused whatever it holds; a failing save returns no file system, so nothing is touched), C11_overwrite + "
+         "C11_overwrite_no_residue (overwrite = delete then write: the result does not depend on the old content), C11_append_absent "
+         "(append / append-over to a missing path = write), C11_unknown (unknown mode refused), C11_tables (the mode tables "
+         "REGENERATED from write.py contain exactly the documented spellings, pairwise classified as documented).",
+    note="Inputs of every kind (node, array, dict, Metadata, list/tuple) go through the same dispatch (EmdModel.SaveList.saveInput) and "
+         "are exercised by the correspondence with old files that are EMD, foreign HDF5 and junk bytes, hashing the bytes before/after. "
+         "Byte-level 'file unchanged' is os/h5py (H7) and is checked by hash on the implementation only.",
+    technique="Lean 4 theorems over the mode dispatch + regenerated mode tables (decide) + differential correspondence with byte hashes",
+    design="7 C11")
+
 NOT_YET = {}
 
 def main():
